@@ -17,7 +17,7 @@ EXPLANATION = "theorems in Props/C09.lean (hit, second_run_silent, present_after
 
 ADMITTING = ["MemoryCache", "FileCache", "XORFileCache", "FernetFileCache", "SQLCache.from_sqlite", "SQLStringCache.from_sqlite",
              "StoreCache(MemoryStore,flat)", "StoreCache(MemoryStore,nested)", "StoreCache(FileStore,flat)", "MemoryCache+FileCache",
-             "NoCache+MemoryCache", "MemoryCache.if_not_contains(abc)", "CacheProxy(MemoryCache)"]
+             "NoCache+MemoryCache", "MemoryCache.if_not_contains(abc)", "MemoryCache.if_not_contains(volatile)", "CacheProxy(MemoryCache)"]
 
 
 def good_query(rng):
